@@ -292,10 +292,16 @@ def baseline_fns():
     if _BASELINE is None:
         p = os.path.join(os.path.dirname(os.path.abspath(__file__)), 'baseline_fns.json')
         try:
-            with open(p) as f: _BASELINE = set(json.load(f))
+            with open(p) as f: _BASELINE = json.load(f)
+            if isinstance(_BASELINE, list): _BASELINE = {n: 'pub' for n in _BASELINE}
         except OSError:
-            _BASELINE = set()
+            _BASELINE = {}
     return _BASELINE
+
+def baseline_private(name):
+    """was `name` a non-public function of the pinned tree?  (a private function may be merged away by a refactoring; a public one is API)"""
+    v = baseline_fns().get(name)
+    return v is not None and v != 'pub'
 
 def _simple_arg(e):
     while isinstance(e, dict) and e.get('k') in ('Borrow', 'Deref', 'Use', 'PointerCoercion', 'NeverToAny'):
